@@ -84,6 +84,8 @@ var defaultExec = []string{
 	"github.com/cosmos/cosmos-sdk/x/auth/types",
 	"github.com/cosmos/cosmos-sdk/codec/types",
 	"github.com/cosmos/cosmos-sdk/x/auth/vesting/exported",
+	"github.com/cosmos/cosmos-sdk/store/prefix",
+	"github.com/cosmos/cosmos-sdk/store/types",
 }
 
 func pkgNameOfDir(dir string) string {
@@ -175,6 +177,24 @@ func main() {
 			sp.Build()
 		}
 	}
+	execPre := spec.ExecPrefixes
+	if len(execPre) == 0 {
+		execPre = defaultExec
+	}
+	// build every package whose functions may be executed up front (lazy building races between workers)
+	{
+		var wg sync.WaitGroup
+		for _, sp := range prog.AllPackages() {
+			for _, pre := range execPre {
+				if strings.HasPrefix(sp.Pkg.Path(), pre) {
+					wg.Add(1)
+					go func(sp *ssa.Package) { defer wg.Done(); sp.Build() }(sp)
+					break
+				}
+			}
+		}
+		wg.Wait()
+	}
 	res.LoadS = time.Since(t0).Seconds()
 	if *verbose > 0 {
 		fmt.Fprintf(os.Stderr, "loaded in %.1fs\n", res.LoadS)
@@ -256,6 +276,9 @@ func main() {
 				}
 			}
 			if *verbose > 0 {
+				for _, v := range hr.Inconclusive {
+					fmt.Fprintf(os.Stderr, "    INCONCL %s [%s] %s %dms path=%v\n", v.Label, v.Kind, v.Site, v.TimeMS, v.Path)
+				}
 				for _, v := range hr.Violations {
 					fmt.Fprintf(os.Stderr, "    VIOL %s [%s] %s %s model=%v\n", v.Label, v.Kind, v.Site, v.Msg, v.Model)
 				}
